@@ -40,6 +40,7 @@ type N struct {
 	id         int
 	start, end int // rune offsets [start,end)
 	line, col  int // location the library is expected to attach (1-based line, 0-based column)
+	toks       []int // rune offsets at which the node's OWN tokens start (name, operator, brackets, punctuation)
 }
 
 func nInt(i int) *N          { return &N{K: "int", I: i} }
@@ -133,6 +134,7 @@ type printer struct {
 	tok    uint64
 	nextID int
 	nodes  []*N
+	cur    *N // node whose own tokens are being emitted
 }
 
 // Printed is the result of printing a tree: the source text plus, for every
@@ -188,8 +190,16 @@ func (p *printer) sep() {
 // tok emits a token and returns its location.
 func (p *printer) token(s string) (line, col int) {
 	line, col = p.line, p.col
-	p.raw(s)
+	p.tk(s)
 	return
+}
+
+// tk emits a token of the current node and records where it starts.
+func (p *printer) tk(s string) {
+	if p.cur != nil {
+		p.cur.toks = append(p.cur.toks, p.off)
+	}
+	p.raw(s)
 }
 
 func quote(s string) string {
@@ -228,16 +238,19 @@ func (p *printer) begin(n *N) {
 
 func (p *printer) node(n *N) {
 	p.begin(n)
-	defer func() { n.end = p.off }()
+	outer := p.cur
+	p.cur = n
+	n.toks = n.toks[:0]
+	defer func() { n.end = p.off; p.cur = outer }()
 	switch n.K {
 	case "int":
 		if n.I < 0 {
 			// A negative literal is spelled as a parenthesised unary minus; the
 			// library folds it or negates at run time, both give the same int.
-			p.raw("(")
+			p.tk("(")
 			n.line, n.col = p.token("-")
-			p.raw(strconv.Itoa(-n.I))
-			p.raw(")")
+			p.tk(strconv.Itoa(-n.I))
+			p.tk(")")
 		} else {
 			n.line, n.col = p.token(strconv.Itoa(n.I))
 		}
@@ -258,17 +271,17 @@ func (p *printer) node(n *N) {
 	case "prop":
 		p.recv(n.C[0])
 		if n.B {
-			p.raw("?.")
+			p.tk("?.")
 		} else {
-			p.raw(".")
+			p.tk(".")
 		}
 		n.line, n.col = p.token(n.S)
 	case "meth":
 		p.recv(n.C[0])
 		if n.B {
-			p.raw("?.")
+			p.tk("?.")
 		} else {
-			p.raw(".")
+			p.tk(".")
 		}
 		n.line, n.col = p.token(n.S)
 		p.args(n.C[1:])
@@ -276,13 +289,13 @@ func (p *printer) node(n *N) {
 		n.line, n.col = p.token(n.S)
 		p.args(n.C)
 	case "un":
-		p.raw("(")
+		p.tk("(")
 		n.line, n.col = p.token(n.S)
 		p.sep()
 		p.node(n.C[0])
-		p.raw(")")
+		p.tk(")")
 	case "bin":
-		p.raw("(")
+		p.tk("(")
 		p.node(n.C[0])
 		p.sep()
 		n.line, n.col = p.token(n.S)
@@ -294,74 +307,74 @@ func (p *printer) node(n *N) {
 			p.sep()
 		}
 		p.node(n.C[1])
-		p.raw(")")
+		p.tk(")")
 	case "cond":
-		p.raw("(")
+		p.tk("(")
 		p.node(n.C[0])
 		p.sep()
 		n.line, n.col = p.token("?")
 		p.sep()
 		p.node(n.C[1])
 		p.sep()
-		p.raw(":")
+		p.tk(":")
 		p.sep()
 		p.node(n.C[2])
-		p.raw(")")
+		p.tk(")")
 	case "arr":
 		n.line, n.col = p.token("[")
 		for i, c := range n.C {
 			if i > 0 {
-				p.raw(",")
+				p.tk(",")
 				p.sep()
 			}
 			p.node(c)
 		}
-		p.raw("]")
+		p.tk("]")
 	case "map":
 		n.line, n.col = p.token("{")
 		for i, c := range n.C {
 			if i > 0 {
-				p.raw(",")
+				p.tk(",")
 				p.sep()
 			}
 			p.node(c)
 		}
-		p.raw("}")
+		p.tk("}")
 	case "pair":
 		n.line, n.col = p.token(quote(n.S))
-		p.raw(":")
+		p.tk(":")
 		p.sep()
 		p.node(n.C[0])
 	case "idx":
 		p.recv(n.C[0])
 		n.line, n.col = p.token("[")
 		p.node(n.C[1])
-		p.raw("]")
+		p.tk("]")
 	case "slice":
 		p.recv(n.C[0])
 		n.line, n.col = p.token("[")
 		if n.C[1].K != "none" {
 			p.node(n.C[1])
 		}
-		p.raw(":")
+		p.tk(":")
 		if n.C[2].K != "none" {
 			p.node(n.C[2])
 		}
-		p.raw("]")
+		p.tk("]")
 	case "bi":
 		n.line, n.col = p.token(n.S)
-		p.raw("(")
+		p.tk("(")
 		p.node(n.C[0])
 		if len(n.C) > 1 {
-			p.raw(",")
+			p.tk(",")
 			p.sep()
-			p.raw("{")
+			p.tk("{")
 			p.sep()
 			p.node(n.C[1])
 			p.sep()
-			p.raw("}")
+			p.tk("}")
 		}
-		p.raw(")")
+		p.tk(")")
 	case "none":
 	default:
 		panic("printer: unknown node kind " + n.K)
@@ -373,24 +386,24 @@ func (p *printer) node(n *N) {
 func (p *printer) recv(n *N) {
 	switch n.K {
 	case "int", "str", "bool", "nil":
-		p.raw("(")
+		p.tk("(")
 		p.node(n)
-		p.raw(")")
+		p.tk(")")
 	default:
 		p.node(n)
 	}
 }
 
 func (p *printer) args(args []*N) {
-	p.raw("(")
+	p.tk("(")
 	for i, a := range args {
 		if i > 0 {
-			p.raw(",")
+			p.tk(",")
 			p.sep()
 		}
 		p.node(a)
 	}
-	p.raw(")")
+	p.tk(")")
 }
 
 // OffsetOf converts a (line, col) location (1-based line, 0-based rune column)
